@@ -86,6 +86,34 @@ def c15_1(ctx, ss):
         (ctx.holds if ok else ctx.violation)("C15.1", ckey(ff, c, "edge-head"), where(ff, c),
                                              "the edge ends at the node just created for this line" if ok else f"the edge ends at `{txt(head)[:60] if head is not None else None}`")
     ctx.count("helpers", len(helpers))
+    # which helper: the plain node exactly for lines without a decaying daughter
+    for c in [c for c in pf.calls_in(lp) if isinstance(c.func, ast.Name) and c.func.id in creators]:
+        conds = [(txt(flow.expand(e, keep={txt(lp.target)})), pol) for kind, e, pol in guards.path_conditions(lp, stmt_of(ff, c)) if kind == "if" and "link_pos" not in txt(e)]
+        kk = ckey(ff, None, f"helper:{c.func.id}")
+        plain = "no_subchain" in c.func.id
+        okb = len(conds) == 1 and conds[0][0].startswith("not has_subdecay(") and conds[0][1] == plain
+        (ctx.holds if okb else ctx.violation)("C15.1", kk, where(ff, c),
+                                              f"{c.func.id} is used exactly for lines {'without' if plain else 'with'} a decaying daughter" if okb
+                                              else f"{c.func.id} is chosen under {conds}")
+    hs = pf.module_facts(ss, VIEWER).funcs.get(f"{B}.has_subdecay")
+    if hs is not None:
+        r = [x for x in pf.walk_no_nested(hs.node) if isinstance(x, ast.Return)]
+        p0 = hs.params[0]
+        okh = len(r) == 1 and txt(r[0].value) in (f"not all((isinstance(p, str) for p in {p0}))", f"any((not isinstance(p, str) for p in {p0}))", f"any((isinstance(p, dict) for p in {p0}))")
+        (ctx.holds if okh else ctx.violation)("C15.1", ckey(hs, None, "has_subdecay"), where(hs, hs.node),
+                                              "a line has a sub-decay iff some daughter is not a plain name" if okh else f"has_subdecay is `{txt(r[0].value) if r else None}`")
+    ws = helpers.get("new_node_with_subchain")
+    if ws is not None:
+        from ..core.defuse import flow_of
+        wflow = flow_of(ss, ws)
+        calls = [c for c in pf.calls_in(ws.node, nested=False) if isinstance(c.func, ast.Name) and c.func.id == "html_table_label"]
+        a = wflow.expand(calls[0].args[0]) if calls else None
+        p0 = ws.params[0]
+        okn = isinstance(a, ast.ListComp) and isinstance(a.elt, ast.IfExp) and txt(a.elt.test) == f"isinstance(__elem__({p0}), dict)" \
+            and txt(a.elt.body) == f"next(iter(__elem__({p0}).keys()))" and txt(a.elt.orelse) == f"__elem__({p0})"
+        (ctx.holds if okn else ctx.violation)("C15.3", ckey(ws, None, "names"), where(ws, ws.node),
+                                              "a decaying daughter is shown by its name (the key of its sub-chain), others as they are" if okn
+                                              else "the names shown in a node with sub-decays are not 'key of the sub-chain, or the daughter itself'")
 
 
 def c15_2(ctx, ss):
